@@ -453,6 +453,7 @@ pub fn run(prop: &str, tier: &str, seed: u64) -> Report {
     total.merge(r);
     // ONE core builder object sealed from several times (configured once, and re-configured before each seal)
     let mut rr = Report::new();
+    let mut rr2 = Report::new();
     let mut rng = Rng::new(seed, "c01-core-reuse", 0);
     for &p in protos {
         for k in 0..(if tier == "thorough" { 400 } else { 40 }) {
@@ -485,8 +486,75 @@ pub fn run(prop: &str, tier: &str, seed: u64) -> Report {
             }
         }
     }
-    total.merge(rr);
+    // ONE core builder object whose payload, footer and assertion are CHANGED between seals (to other values, to the empty
+    // value and back): every token must open to the payload, footer and assertion that were current at its seal
+    let nscr = if tier == "thorough" { 600 } else { 60 };
     for &p in protos {
+        for k in 0..nscr {
+            let key = pools.key(p, k % pools.count(p));
+            let mut ops: Vec<CoreOp> = Vec::new();
+            let mut cur: (String, Option<String>, Option<String>) = (String::new(), None, None);
+            let mut want: Vec<(String, Option<String>, Option<String>)> = Vec::new();
+            let m0 = rng.utf8_upto(60);
+            ops.push(CoreOp::Payload(m0.clone()));
+            cur.0 = m0;
+            let nseal = 2 + rng.below(4);
+            let footers = ["", "ftr", "other-footer", "{\"kid\":\"k1\"}", "ftr"];
+            let assertions = ["", "ia", "another assertion"];
+            while want.len() < nseal {
+                for _ in 0..rng.below(3) {
+                    match rng.below(if p.has_assertion() { 3 } else { 2 }) {
+                        0 => {
+                            let f = if rng.chance(1, 4) { rng.utf8_upto(20) } else { footers[rng.below(footers.len())].to_string() };
+                            ops.push(CoreOp::Footer(f.clone()));
+                            cur.1 = Some(f);
+                        }
+                        1 => {
+                            let big = rng.chance(1, 6);
+                            let m = rng.utf8_upto(if big { 1500 } else { 50 });
+                            ops.push(CoreOp::Payload(m.clone()));
+                            cur.0 = m;
+                        }
+                        _ => {
+                            let a = assertions[rng.below(assertions.len())].to_string();
+                            ops.push(CoreOp::Assertion(a.clone()));
+                            cur.2 = Some(a);
+                        }
+                    }
+                }
+                ops.push(CoreOp::Seal(rng.bytes(32)));
+                want.push(cur.clone());
+            }
+            let outs = core_script(p, &key, &ops);
+            if outs.len() != want.len() {
+                rr2.inconclusive.push(format!("{} core script: {} outcomes for {} seals", p.name(), outs.len(), want.len()));
+                continue;
+            }
+            for (i, (o, w)) in outs.iter().zip(want.iter()).enumerate() {
+                rr2.evaluations += 1;
+                let replay = json!({"cmd": prop, "note": "core-builder history: re-run the check", "p": p.name(), "ops": ops, "seal_no": i + 1});
+                let back = match o {
+                    Out::Ok(t) => core_open(p, &key, t, w.1.as_deref(), w.2.as_deref()).0,
+                    other => Out::Err(format!("seal failed: {}", other.brief())),
+                };
+                match back {
+                    Out::Ok(m) if m == w.0 => {
+                        rr2.count(&format!("{} core builder history: token opens to the payload/footer/assertion current at its seal", p.name()));
+                        rr2.distinct(format!("{}|core-history|{}|{:?}|{:?}", p.name(), i.min(3), w.1.as_ref().map(|f| f.is_empty()), w.2.as_ref().map(|a| a.is_empty())));
+                    }
+                    other => rr2.violation(
+                        format!("{} core-builder-history {}", prop, p.name()),
+                        format!("{}: ONE core builder, history {}: seal #{} was made with payload of {} bytes, footer {:?}, assertion {:?} current, but the token does not open to them: {}", p.name(), util::clip(&format!("{:?}", ops.iter().map(|o| match o { CoreOp::Payload(m) => format!("payload[{}]", m.len()), CoreOp::Footer(f) => format!("footer({:?})", f), CoreOp::Assertion(a) => format!("assertion({:?})", a), CoreOp::Seal(_) => "SEAL".to_string() }).collect::<Vec<_>>()), 300), i + 1, w.0.len(), w.1, w.2, other.brief()),
+                        replay,
+                    ),
+                }
+            }
+        }
+    }
+    total.merge(rr);
+    total.merge(rr2);
+    for &p in protos {
+        total.require(&format!("{} core builder history: token opens to the payload/footer/assertion current at its seal", p.name()), 20);
         total.require(&format!("{} core builder reused: token #2 opens to the message", p.name()), 10);
         for l in LAYERS {
             total.require(&format!("{}/{} ok", p.name(), l.name()), 20);
